@@ -164,7 +164,8 @@ class C13(Prop):
             return {"k": "ser", "text": cps(text), "equal": equal, "headSame": head_same, "gen": g}
         if g["kind"] == "doc":
             deps = {i: make_dep(H, rnd, hostile=(i == 3), name=f"dep{i}", hostile_head=False) for i in (1, 2, 3)}
-            deco = ["<p>", " </p>\n", "<!-- c -->", " <script>var x = 1;</script> ", "\r\n", "</div>", "&amp;"]
+            deco = ["<p>", " </p>\n", "<!-- c -->", " <script>var x = 1;</script> ", "\r\n", "</div>", "&amp;",
+                    "<body>", "</head>\n<body id='b'>", "<html><head>"]
             parts = []
             for s in g["segs"]:
                 if s["k"] == "text":
@@ -178,7 +179,7 @@ class C13(Prop):
             res = tdoc.render(lib_prefix="lib", include_version=True)
             got = res["dependencies"]
             ids = []
-            for d in got:
+            for d in got[:11]:
                 m = re.match(r"dep(\d)$", d.name)
                 i = int(m.group(1)) if m else 0
                 ids.append(i if i in deps and dep_fields(deps[i]) == dep_fields(d) else -1)
@@ -186,14 +187,20 @@ class C13(Prop):
             # what remains after extraction: rendered with a placeholder that cannot occur (public API only)
             NEVER = "\uffff<never>\uffff"
             rest_text = H.HTMLTextDocument(text, deps_replace_pattern=NEVER).render()["html"]
-            headstr = head_markup(got, H) if got else ""
+            # a text holds at most 3 distinct dependencies: a longer list is already wrong (the `deps` field shows it) and
+            # its head markup is not worth projecting (a changed library may return lists that grow with every document)
+            overlong = len(got) > 10
+            if overlong:
+                return {"k": "doc", "segs": g["segs"], "deps": ids[:10] + [-1], "rest": [], "rendered": [], "headEmpty": False,
+                        "untouched": False, "insEv": [], "docEv": [], "gen": g}
+            headstr = head_markup(got, H) if got and not overlong else ""
             pieces = rest_expected.split(PH)
             html = res["html"]
             ins, marks = "", None
             if len(pieces) > 1:
                 pre, suf = pieces[0], PH.join(pieces[1:])
                 if html.startswith(pre) and html.endswith(suf) and len(html) >= len(pre) + len(suf):
-                    ins = html[len(pre): len(html) - len(suf)]
+                    ins = html[len(pre): len(html) - len(suf)] if not overlong else ""
                     marks = scan(pre, "") + [["head", 0]] + scan(suf, "")
             if marks is None:
                 marks = scan(html, "")
